@@ -87,9 +87,6 @@ pub fn reshape_targets(r: usize, c: usize) -> Vec<(usize, usize)> {
     v
 }
 
-/// Longest dimension for which every `take` index tuple of length <= 3 is enumerated; beyond it
-/// (long family) every tuple of length <= 2 plus the structured full-length lists of `long_take`.
-pub const TAKE_CUBE_MAX: usize = 24;
 pub const LONG_TAKES: usize = 6;
 
 /// Structured index lists over a long axis of length n (all of length >= n, so that the copy loop
@@ -106,19 +103,39 @@ pub fn long_take(k: usize, n: usize) -> Vec<usize> {
     }
 }
 
-/// Draw the index list of a `take` along an axis of length `dim`.
-pub fn choose_take(dim: usize) -> Vec<usize> {
-    if dim <= TAKE_CUBE_MAX {
+/// Draw the index list of a `take` along an axis of length `dim`. Short space: every tuple of length
+/// <= 3. Long axis of the long family: every single index i, every pair (i, j) with j in {0, i, n-1},
+/// and the 6 structured full-length lists of `long_take`.
+pub fn choose_take(dim: usize, long: bool) -> Vec<usize> {
+    if !(long && dim >= crate::LONG_MIN) {
         let len = 1 + mc::choose(3);
         (0..len).map(|_| mc::choose(dim)).collect()
     } else {
-        let k = mc::choose(2 + LONG_TAKES);
-        if k < 2 {
-            (0..k + 1).map(|_| mc::choose(dim)).collect()
+        let k = mc::choose(4 + LONG_TAKES);
+        if k < 4 {
+            let i = mc::choose(dim);
+            match k {
+                0 => vec![i],
+                1 => vec![i, 0],
+                2 => vec![i, i],
+                _ => vec![i, dim - 1],
+            }
         } else {
             mc::count("long_take_full_length");
-            long_take(k - 2, dim)
+            long_take(k - 4, dim)
         }
+    }
+}
+
+/// Index ranges offered to `slice` along an axis of length n. Short space: every non-empty range.
+/// Long axis of the long family: every range that starts at 0, 1 or 2 or ends at n, n-1 or n-2
+/// (every length 1..n occurs, at both boundary alignments).
+fn slice_ranges(n: usize, long: bool) -> Vec<(usize, usize)> {
+    let all = ranges(n);
+    if long && n >= crate::LONG_MIN {
+        all.into_iter().filter(|(s, e)| *s <= 2 || *e + 2 >= n).collect()
+    } else {
+        all
     }
 }
 
@@ -215,7 +232,7 @@ fn structural<T: W>(a: &M, d: &DenseMatrix<T>, fi: usize, fs: FillSet) -> String
             }
         }
         "slice" => {
-            let (rr, cr) = (ranges(r), ranges(c));
+            let (rr, cr) = (slice_ranges(r, fs.is_long()), slice_ranges(c, fs.is_long()));
             let (r0, r1) = rr[mc::choose(rr.len())];
             let (c0, c1) = cr[mc::choose(cr.len())];
             let want = M::new(r1 - r0, c1 - c0, |i, j| a.at(r0 + i, c0 + j));
@@ -243,7 +260,7 @@ fn structural<T: W>(a: &M, d: &DenseMatrix<T>, fi: usize, fs: FillSet) -> String
         "take0" | "take1" => {
             let axis: u8 = if op == "take0" { 0 } else { 1 };
             let dim = if axis == 0 { r } else { c };
-            let idx: Vec<usize> = choose_take(dim);
+            let idx: Vec<usize> = choose_take(dim, fs.is_long());
             let len = idx.len();
             let want = if axis == 0 { M::new(len, c, |i, j| a.at(idx[i], j)) } else { M::new(r, len, |i, j| a.at(i, idx[j])) };
             let w = desc::<T>(a, fi, fs, format!(" take({:?}, axis {})", idx, axis));
